@@ -234,6 +234,20 @@ def r_mat_misc(rep, f, cx, nmax):
                     n_c += 1
                     if any(cx.read(m, i, j) != Poly() for i in range(n) for j in range(n)):
                         probs.append("Matrix::banded(%d, %d, %d) is not the zero matrix" % (n, ml, mu))
+            # from_storage(n, n, S): the zero matrix in exactly the storage S that was asked for (the solvers build the Jacobian
+            # and mass matrices the user configured through it: a different descriptor rejects the user's in-band writes)
+            if M + "from_storage" in f.bodies:
+                for k in kinds(n):
+                    want_st = cx.mk(k, n, "z")["storage"]
+                    m = cx.call(M + "from_storage", [n, n, dict(want_st)])
+                    n_c += 1
+                    bad_inv = repinv(m, n)
+                    if bad_inv:
+                        probs.append("Matrix::from_storage(%d, %d, %s): %s" % (n, n, kname(k), bad_inv))
+                    elif m.get("storage") != want_st:
+                        probs.append("Matrix::from_storage(%d, %d, %s) has storage %r, not the one asked for" % (n, n, kname(k), m.get("storage")))
+                    elif k != ("I",) and any(cx.read(m, i, j) != Poly() for i in range(n) for j in range(n)):
+                        probs.append("Matrix::from_storage(%d, %d, %s) is not the zero matrix" % (n, n, kname(k)))
     except (CxUnknown, CxPanic) as ex:
         rep.inconc("R-MAT-DENSE", key, "constructor not evaluated: %s" % ex)
         probs = None
